@@ -443,3 +443,17 @@ Proof.
   - destruct (L8 eq_refl) as [Hm Hf]. specialize (L7 Hm). specialize (L6 L7). destruct (L5 L6) as (Hi & Hb & _).
     exfalso. apply Hne. unfold pipeline, wk_part, a_pre, a_post. now rewrite Ew, Hf, L7, Hb, Hi.
 Qed.
+
+(* a history without any Flush and without Stop in which a limit-triggered flush answers both batches *)
+Definition cfg_small : cfg := mkCfg 4 1 2 1048576 1000 1048576 true true true true true.
+Definition trace_limit : list label :=
+  [LStart; LTry 0 one_row ChBuf; LSent 0; LTry 1 one_row ChDrain; LSent 1;
+   LActorTake 0; LActorBuffer false; LActorTake 1; LActorBuffer true; LFqSent] ++ flush_ok ++
+  [LAck Worker AOk; LAck Worker AOk].
+Lemma limit_run :
+  exists s, reachable cfg_small s /\ stop_returned s = None /\ stopped s = false /\
+            ack s 0%nat = Some RNil /\ ack s 1%nat = Some RNil /\ visible s = [0%nat; 1%nat] /\ pipeline s = [].
+Proof.
+  destruct (run cfg_small init trace_limit) as [s|] eqn:E; [|vm_compute in E; discriminate].
+  exists s. split; [eapply run_reachable; eauto|]. vm_compute in E. inversion E; subst. vm_compute. auto 10.
+Qed.
